@@ -12,6 +12,9 @@ A scheduler chooses, one action at a time,
 * `fail i` — the same, but the step (if it can fail: reading the config, opening the lock file,
   `flock`, opening the history, or any call guarded by an `errReturn`) fails for an external reason,
 * `kill i` — SIGKILL: the process is gone, the kernel closes its descriptors (lock released),
+* `cexec i` — the child (ssh) that process `i` forked for its device session reaches its `exec`
+  (until then it holds a copy of every descriptor of its parent, the lock file included),
+* `reap i` — that child ends,
 * `gc i`   — the Go runtime finalises the unreachable `*os.File` of the lock (closing it releases the
   lock): possible only while the process has neither executed nor still has ahead of it the
   `defer lockFH.Close()` that keeps the file reachable until `Main` returns.
@@ -72,6 +75,10 @@ def Proc.next (p : Proc) (free fail : Bool) : Out :=
   | s :: rest =>
     match s with
     | .exit c => ⟨{ p with st := .exited c, holds := false, prog := rest }, .release, true⟩
+    | .mayExit c =>
+      -- a conditional early return: `fail` = the condition holds, the process returns now
+      if fail then ⟨{ p with st := .exited c, holds := false, prog := rest }, .release, true⟩
+      else ⟨{ p with prog := rest }, .none, true⟩
     | .flock =>
       if free && !fail then ⟨{ p with prog := rest, holds := true, everHeld := true }, .acquire, true⟩
       else ⟨{ p with prog := onError rest, lost := true }, .none, false⟩
@@ -102,18 +109,44 @@ structure World where
   procs : Pid → Proc
   table : Table
   trace : List Ev
+  /-- process `i` has a live child: the `ssh` (or simulator) it spawned for its device session.
+  The child is not waited for (`Conn.Close` just sends `exit`) and survives a SIGKILL of its parent. -/
+  kids : Pid → Bool := fun _ => false
+  /-- that child is still between `fork` and `exec`: it is a copy of its parent and has a copy of
+  EVERY descriptor, close-on-exec or not (observed on the real code: NA/Props/C12, F-C12a) -/
+  preExec : Pid → Bool := fun _ => false
+  /-- the lock file is opened close-on-exec (Go's `os.OpenFile` always is), so a child does not
+  inherit the descriptor; `false` models an open without `O_CLOEXEC` -/
+  cloexec : Bool := true
 
 inductive Action
   | step (i : Pid) | fail (i : Pid) | kill (i : Pid) | gc (i : Pid)
+  | reap (i : Pid)   -- the child of process `i` ends
+  | cexec (i : Pid)  -- the child of process `i` reaches its `exec`: close-on-exec descriptors are closed
   deriving DecidableEq, Repr
+
+/-- All descriptors of process `i` for its lock file are closed (exit, SIGKILL, Close, finaliser).
+The flock belongs to the open file description: it disappears now unless a live child has a
+descriptor of it — because it has not reached its `exec` yet, or because the file was opened without
+close-on-exec. -/
+def World.childHasFd (w : World) (i : Pid) : Bool := w.kids i && (w.preExec i || !w.cloexec)
+
+def World.releaseOf (w : World) (i : Pid) : Table :=
+  if w.childHasFd i then w.table else w.table.release i
 
 def setProc (procs : Pid → Proc) (i : Pid) (p : Proc) : Pid → Proc :=
   fun j => if j = i then p else procs j
 
-def applyOp (t : Table) (f : String) (i : Pid) : LockOp → Table
+def applyOp (t released : Table) (f : String) (i : Pid) : LockOp → Table
   | .none => t
   | .acquire => t.acquire f i
-  | .release => t.release i
+  | .release => released
+
+/-- the device session begins by spawning the child -/
+def spawns (p : Proc) : Bool :=
+  match p.prog with
+  | .devBegin :: _ => true
+  | _ => false
 
 /-- The event recorded for the step a process is about to execute. -/
 def evOf (p : Proc) (i : Pid) (ok : Bool) : List Ev :=
@@ -126,8 +159,11 @@ def stepProc (w : World) (i : Pid) (fail : Bool) : World :=
   if p.st = .running then
     let o := p.next (w.table.free p.lockFile) fail
     { procs := setProc w.procs i o.proc
-      table := applyOp w.table p.lockFile i o.op
-      trace := evOf p i o.ok ++ w.trace }
+      table := applyOp w.table (w.releaseOf i) p.lockFile i o.op
+      trace := evOf p i o.ok ++ w.trace
+      kids := if spawns p then (fun j => if j = i then true else w.kids j) else w.kids
+      preExec := if spawns p then (fun j => if j = i then true else w.preExec j) else w.preExec
+      cloexec := w.cloexec }
   else w
 
 /-- What an action appends to the trace. -/
@@ -149,13 +185,28 @@ def exec (w : World) : Action → World
     let p := w.procs i
     if p.st = .running then
       { w with procs := setProc w.procs i { p with st := .killed, holds := false }
-               table := w.table.release i }
+               table := w.releaseOf i }
     else w
   | .gc i =>
     let p := w.procs i
     if p.gcable then
       { w with procs := setProc w.procs i { p with holds := false }
-               table := w.table.release i }
+               table := w.releaseOf i }
+    else w
+  | .cexec i =>
+    if w.kids i && w.preExec i then
+      { w with preExec := fun j => if j = i then false else w.preExec j
+               -- close-on-exec descriptors of the child are closed now: if the parent has let go of the
+               -- lock meanwhile (it died), this was the last descriptor
+               table := if (w.procs i).holds || !w.cloexec then w.table else w.table.release i }
+    else w
+  | .reap i =>
+    if w.kids i then
+      { w with kids := fun j => if j = i then false else w.kids j
+               preExec := fun j => if j = i then false else w.preExec j
+               -- the child's copy of the descriptor (if it had one) is closed: the lock goes unless
+               -- the parent still holds it
+               table := if (w.procs i).holds then w.table else w.table.release i }
     else w
 
 def run (as : List Action) (w : World) : World := as.foldl exec w
@@ -170,6 +221,7 @@ def safe : Bool → Bool → List Step → Bool
   | l, p, .flock :: rest => !l && guarded rest && safe true p rest
   | _, _, .closeLock :: _ => false
   | l, _, .deferClose :: rest => safe l true rest
+  | l, p, .mayExit _ :: rest => safe l p rest
   | l, p, s :: rest => (!s.protected || (l && p)) && safe l p rest
 
 /-! ## The two front-ends -/
@@ -177,7 +229,9 @@ def safe : Bool → Bool → List Step → Bool
 /-- `drc [options] FILE` (one-argument mode), from `drc.Main`, `device.SetLock`,
 `device.ApproveOrCompare`. -/
 def drcProg : List Step :=
-  [.errReturn,                                   -- fs.Parse
+  [.mayExit 1, .errReturn,                       -- fs.Parse: -h | other error
+   .mayExit 0,                                   -- -v
+   .mayExit 1,                                   -- no argument / more than two: usage
    .readConfig, .errReturn,                      -- program.LoadConfig
    .mkdirLock, .openLock, .flock, .errReturn,    -- device.SetLock(fname, cfg); if err != nil { return abort }
    .deferClose,                                  -- defer lockFH.Close()
@@ -186,9 +240,12 @@ def drcProg : List Step :=
 
 /-- `do-approve approve|compare DEVICE`, from `doapprove.Main`. -/
 def doApproveProg : List Step :=
-  [.errReturn,                                   -- fs.Parse
+  [.mayExit 1, .errReturn,                       -- fs.Parse: -h | other error
+   .mayExit 1,                                   -- len(args) != 2: usage
    .readConfig, .errReturn,                      -- program.LoadConfig
    .errReturn,                                   -- filepath.EvalSymlinks(policies/current)
+   .mayExit 1,                                   -- unknown device
+   .mayExit 1,                                   -- action neither approve nor compare: usage
    .mkdirLock, .openLock, .flock,                -- device.SetLock(devName, cfg)
    .deferClose, .errReturn,                      -- if lockFH != nil { defer lockFH.Close() }; if err != nil { return abort }
    .histOpen, .errReturn,                        -- openHistoryLog
@@ -197,7 +254,8 @@ def doApproveProg : List Step :=
    .errReturn,                                   -- os.ReadFile(logFile)
    .hist "\"RES:\"",
    .status, .status,                             -- status.SetCompare | status.SetApprove (both branches)
-   .hist "\"END:\""]                             -- then return 1 / 0: end of list = exit
+   .hist "\"END:\"",
+   .mayExit 1, .mayExit 0]                       -- if failed { return 1 } else { return 0 }
 
 inductive Front
   | drc | doApprove
